@@ -375,7 +375,10 @@ class Misc(callbacks.Plugin):
             try:
                 (private, L) = irc._mores[nick]
                 if not private:
-                    irc._mores[userHostmask] = L[:]
+                    # Copies of the messages: <nick> may still ask for (and
+                    # be sent) the originals.
+                    irc._mores[userHostmask] = [ircmsgs.IrcMsg(msg=m)
+                                                for m in L]
                 else:
                     irc.error(_('%s has no public mores.') % nick)
                     return
